@@ -48,7 +48,8 @@ def impl_model_part(rep, th):
     """Level 2: ShareImpl.tla (Share at lock grain) explored exhaustively: the counter per generation of the code (fix 75994e7) keeps OneLive / NonNegative /
     Grammar / Released under every interleaving; Released is EXPECTED to fail for the former single counter (the repaired finding, kept at design level)."""
     for cfgname in ['ShareImpl_aware.cfg'] + (['ShareImpl_aware3.cfg'] if th else []):
-        r = vlib.run_tlc('ShareImpl', cfgname, timeout=1500, deadlock=False)
+        # deadlock checking ON (SpecNoStuckCall): a state without successor other than "every thread used its operations and is idle" is a call that never returns
+        r = vlib.run_tlc('ShareImpl', cfgname, timeout=1500, deadlock=True)
         vlib.tlc_must_pass(r, cfgname)
         rep.add_states(r)
         rep.parts['tlc:' + cfgname] = dict(ok=r.ok, violated=r.violation, generated=r.generated, distinct=r.distinct)
